@@ -30,6 +30,17 @@ let () =
 let echo_of inp = match Hashtbl.find_opt echo inp with Some o -> o | None -> "NOT-REPLAYED"
 let model_fits la lb = min la lb <= 65 && max la lb <= 130
 
+(* ints_of with the two abbreviations of round 5 for long inputs: "v*n" (n times v), "a~b" (a .. b) *)
+let ints_of5 s =
+  if not (String.contains s '*' || String.contains s '~') then ints_of s else
+  List.concat_map (fun p ->
+    match String.split_on_char '*' p, String.split_on_char '~' p with
+    | [v; n], _ -> let v = int_of_string v and n = int_of_string n in
+      if n < 0 || n > 131072 then failwith "bad int" else List.init n (fun _ -> v)
+    | _, [a; b] -> let a = int_of_string a and b = int_of_string b in
+      if b - a > 131072 then failwith "bad int" else List.init (max 0 (b - a + 1)) (fun i -> a + i)
+    | _ -> [int_of_string p]) (String.split_on_char ',' s)
+
 let strip_p inp =
   match words (String.map (fun c -> if c = '_' then ' ' else c) inp) with
   | "P" :: _ :: rest -> String.concat " " rest
@@ -115,7 +126,7 @@ type lline = { mode : int; l : int list; r : int list; lx : int list; rx : int l
 let parse_l inp =
   match words inp with
   | [("L" | "S"); mode; _; "E"; l; r; lx; rx] ->
-    let l = ints_of l and r = ints_of r and lx = ints_of lx and rx = ints_of rx in
+    let l = ints_of5 l and r = ints_of5 r and lx = ints_of lx and rx = ints_of rx in
     Some { mode = int_of_string mode; l; r; lx; rx; larr = [555; 555] @ l @ lx; rarr = [666; 666] @ r @ rx; same = false; lbase = 2; rbase = 2 }
   | [("L" | "S"); mode; _; "A"; arr; a; b; c; d; cl] ->
     let arr = ints_of arr and a = int_of_string a and b = int_of_string b
